@@ -142,6 +142,9 @@ func (z *zbCtx) linLen(x *Term) lin {
 				return l
 			}
 		}
+	case x.Op == "call" && (x.Name == "slices.Insert" || strings.HasPrefix(x.Name, "slices.Insert[")) && len(x.Args) == 3 && x.Args[2].Op == "lit":
+		// slices.Insert(s, i, v...) has len(s)+len(v) elements
+		return z.linLen(x.Args[0]).add(linConst(int64(len(x.Args[2].Args))), 1)
 	case x.Op == "call" && x.Name == "strings.TrimSuffix":
 		l := z.atom(mk("len", "builtin.len", x))
 		z.fact(z.linLen(x.Args[0]).add(l, -1), "len(TrimSuffix(s,p)) ≤ len(s)")
